@@ -251,7 +251,9 @@ CLAIMED = {
                 "arguments; fixed-width utmp fields never reach a NUL-expecting consumer "
                 "and every bounded consumer is bounded by sizeof of the same member; "
                 "strncpy/memset/sprintf into fixed arrays are bounded by the destination; "
-                "signed shifts/multiplications of parsed arguments are range-guarded; "
+                "signed shifts/multiplications of parsed arguments are overflow-free on the interval "
+                "their exiting range checks leave; Py_DECREF/Py_INCREF never reach a PyObject* "
+                "that can still be the NULL it was initialised with (error labels); "
                 "setmntent/socket/CPU_ALLOC/getifaddrs resources are released exactly once "
                 "on every CFG path (goto/label/loops, null-test refinement); the C tuple "
                 "slots agree with suser/sdiskpart/snicaddr and the all=False filter. "
